@@ -10,6 +10,6 @@ CONSTANTS
   AllowKill = TRUE  FaultOnLock = TRUE
   V_FlushBeforeRename = TRUE  V_FailureConsulted = TRUE  V_LockOnAbort = TRUE
   V_LockFromCounter = TRUE  V_Handled = {"TERM", "INT"}  V_InterruptedCheckFails = TRUE
-  V_OverflowFails = TRUE
+  V_OverflowFails = TRUE  EnvTmp = "usable"
 SPECIFICATION TSpec
 CHECK_DEADLOCK FALSE
